@@ -134,6 +134,9 @@ func (obj *SparseInt8Vector) SET(x *SparseInt8Vector) {
   }
 }
 func (obj *SparseInt8Vector) SLICE(i, j int) *SparseInt8Vector {
+  if i < 0 || i > j || j > obj.n {
+    panic(fmt.Errorf("slice (%d:%d) out of bounds for vector of dimension %d", i, j, obj.n))
+  }
   r := nilSparseInt8Vector(j-i)
   for it := obj.indexIteratorFrom(i); it.Ok(); it.Next() {
     if it.Get() >= j {
